@@ -31,4 +31,5 @@ InvVisit == LawVisitNoSignal(t) /\ LawSkip(t) /\ LawStop(t)
 InvRel == LawRelConsistent(t) /\ LawTreeHeight(t)
 InvTyped == LawTyped(t)
 InvPrefix == LawPrefix(t)
+InvFilter == LawFilter(t)
 =============================================================================
